@@ -81,10 +81,20 @@ def check(model: Model, run: Run) -> None:
                        "bit-field constants agree. The arithmetic equalities of the property are NOT decided by this check")
     fns = [fi for fq, fi in model.functions.items() if fi.module == ASN1 and not isinstance(fi.node, ast.Lambda)]
     run.floor("asn1 functions", len(fns), 30)
+    # a private generator helper every use of which was expanded in place (nothing refers to it any more) is judged at those
+    # expansions, with the arguments of each call site; its own text has no caller to take parameter facts from
+    def expanded_away(fi) -> bool:
+        if fi.cls is not None or not fi.name.startswith("_") or not any(isinstance(x, (ast.Yield, ast.YieldFrom)) for x in walk_no_nested(fi.node)):
+            return False
+        return not any(isinstance(x, ast.Name) and x.id == fi.name for g in model.functions.values() if g is not fi and not isinstance(g.node, ast.Lambda)
+                       and g.module == fi.module for x in ast.walk(g.node))
+    fns = [fi for fi in fns if not expanded_away(fi)]
     # ---- (a) totality -------------------------------------------------------------
     for fi in fns:
         mr.escapes(fi.qualname, fi.cls)
-    sites = [s for s in mr.implicit_sites if s["function"].startswith(ASN1 + ".")]
+    judged = {fi.qualname for fi in fns}
+    sites = [s for s in mr.implicit_sites if s["function"].startswith(ASN1 + ".") and (s["function"] in judged or s["function"] not in model.functions or
+                                                                                       not expanded_away(model.functions[s["function"]]))]
     run.floor("implicit raiser sites in asn1.py", len(sites), 25)
     allowed_reader = {"ValueError", "UnicodeDecodeError"}
     for s in sites:
